@@ -23,6 +23,10 @@ CORPUS = [
     ([('trs', '154N97W14'), ('todict', '154n97w14'), ('mutate',)], ('trs', '154N97W14')),
     ([('parse', 'T154-R97 Sec 14: NE/4', ''), ('master', 's', 'e')], ('parse', 'T154-R97 Sec 14: NE/4', '')),
     ([('find', 'T154-R97 Sec 14: NE/4'), ('master', 's', 'e')], ('find', 'T154-R97 Sec 14: NE/4')),
+    ([('master', 'n', 'w')], ('late', 'T154-R97 Sec 14: NE/4', '', 's', 'e')),
+    ([('use', False)], ('repoint', '154n97w14', '155n98w15')),
+    ([('use', False), ('trs', '154n97w14')], ('repoint', '154n97w14', 'nonsense')),
+    ([('use', False)], ('repoint', '154n97w14', '')),
 ]
 
 TEXTS = ['T154N-R97W Sec 14: NE/4, Sec 15: W/2', 'T154-R97 Sec 14: NE/4', 'T1-R2 Sec 1: Lots 1 - 3', 'NE/4 of Section 14, T154N-R97W', 'TI54N-R97W Sec 14: NE/4',
@@ -65,6 +69,19 @@ def apply_op(pytrs, op, keep):
             return [d[f] for f in FIELDS]
         if k == 'construct':
             return pytrs.TRS.from_twprgesec(op[1], op[2], op[3]).trs
+        if k == 'late':      # object made under other MasterConfig defaults, parsed under the ones in force now
+            now = (pytrs.MasterConfig.default_ns, pytrs.MasterConfig.default_ew)
+            pytrs.MasterConfig.default_ns, pytrs.MasterConfig.default_ew = op[3], op[4]
+            try:
+                d = pytrs.PLSSDesc(op[1], config=','.join(x for x in [op[2], 'wait_to_parse'] if x))
+            finally:
+                pytrs.MasterConfig.default_ns, pytrs.MasterConfig.default_ew = now
+            d.parse()
+            return normalise([d.pp_desc, d.current_layout, [obs_tract(t) for t in d.tracts], [list(d.w_flags), list(d.w_flag_lines), list(d.e_flags), list(d.e_flag_lines)]])
+        if k == 'repoint':   # an existing TRS object re-pointed to another string
+            o = pytrs.TRS(op[1])
+            o.trs = op[2]
+            return [getattr(o, f) for f in FIELDS]
         if k == 'clear':
             pytrs.TRS._clear_cache()
             return None
@@ -174,6 +191,10 @@ def run(tier, mode):
             elif k < 0.55 and any(o[0] in ('trs', 'todict') and isinstance(o[1], str) and o[1] for o in ops):   # ... or differs from one only in case
                 o = r.choice([o for o in ops if o[0] in ('trs', 'todict') and isinstance(o[1], str) and o[1]])
                 probe = ('trs', r.choice([o[1].swapcase(), o[1].lower(), o[1].upper()]))
+            elif k < 0.65:
+                probe = ('late', r.choice(TEXTS), r.choice(['', 'parse_qq', 'segment']), r.choice('ns'), r.choice('ew'))
+            elif k < 0.75:
+                probe = ('repoint', r.choice(TRS_STRS), r.choice(TRS_STRS))
             else:
                 probe = gen_op(r)
                 while probe[0] in ('clear', 'use', 'master', 'mutate'):
@@ -196,7 +217,9 @@ def run(tier, mode):
             MC.default_ns, MC.default_ew = 'n', 'w'
         # ---- oracle: the same probe in a fresh interpreter under the same MasterConfig
         if True:
-            p = subprocess.run([H.PY, '-c', PROBE_CODE % {'tools': tools_dir}], input=json.dumps({'mc': mc_now, 'probe': probe}), text=True,
+            # composite probes are judged against the plain operation they must be equivalent to
+            fresh_probe = ('parse', probe[1], probe[2]) if probe[0] == 'late' else (('trs', probe[2]) if probe[0] == 'repoint' else probe)
+            p = subprocess.run([H.PY, '-c', PROBE_CODE % {'tools': tools_dir}], input=json.dumps({'mc': mc_now, 'probe': fresh_probe}), text=True,
                                capture_output=True, env=dict(os.environ, PYTHONPATH=H.REPO, PYTHONHASHSEED='0'), timeout=120)
             n_or += 1
             try:
@@ -208,7 +231,7 @@ def run(tier, mode):
                               'got': repr(normalise(got))[:300], 'want': repr(fresh)[:300], 'known_id': None})
             else:
                 nontriv.add(repr((ops, probe)))
-        if mode != 'search':
+        if mode != 'search' and probe[0] not in ('late', 'repoint'):
             full = [wire_op(o) for o in ops] + [wire_op(probe)]
             # compare the probe outcome (and every earlier outcome) with the model
             exp = outs + [got]
